@@ -78,7 +78,7 @@ def run(ctx):
         r.check(True, "write_to_buffer/direct", where(wt), "direct writes copy the body (no coalescing possible)")
         rc = ctx.saw(rt.fn(suffix="receiver::value_or_supply_raw_response"))
         sl = [c for c in rc.calls if c.name == "supply_lane"]
-        r.check(len(sl) == 2 and all(any(d == "disc(uplink)" and l == "Supply" for d, l, _ in dom_guards(rc, c.block)) for c in sl), "receiver/Supply=>supply_lane", where(rc), "supply lanes produce ItemResponse::supply_lane (UplinkResponse::Supply)")
+        r.check(len(sl) >= 1 and all(any(d == "disc(uplink)" and l == "Supply" for d, l, _ in dom_guards(rc, c.block)) for c in sl), "receiver/Supply=>supply_lane", where(rc), "supply lanes produce ItemResponse::supply_lane (UplinkResponse::Supply)")
 
     with ctx.rule("C14.R14", "T5+T8", "a lane's kind decides its uplink: supply lanes are registered as supply uplinks on every registration path", floor=8) as r:
         # WarpLaneKind --uplink_kind()--> UplinkKind --LaneEndpoint.kind--> into_lane_stream --> ResponseReceiver::supply_lane --> UplinkResponse::Supply
